@@ -1,7 +1,7 @@
 (* C05: the statements of props/C05.v in explicit form (no Hoare-triple abbreviation). *)
 From Coq Require Import ZArith List Bool Lia ZifyBool String.
-From PB Require Import lib.PySlice C05.Mon C05.Model C05.Callers C05.Logic C05.Proofs C05.ProofsDF
-                       C05.CallerProofs C05.Sigs gen.GenKernels.
+From PB Require Import lib.PySlice C05.PyLen C05.Mon C05.Model C05.Callers C05.Logic C05.Proofs C05.ProofsDF
+                       C05.ProofsBZ C05.CallerProofs C05.ProofsSeg C05.Sigs gen.GenKernels.
 Import ListNotations.
 Open Scope Z_scope.
 
@@ -104,18 +104,18 @@ Lemma design_public_final n num_knots degree (o : list bool) :
   all_okb (logof (design_call n num_knots degree o)) = true.
 Proof. intros. eapply spec_run_log. eapply design_public; eauto. Qed.
 
-Lemma peak_filling_public_final size sections half_win pads h (o : list bool) :
+Lemma peak_filling_public_final size sections half_win left_pad right_pad h (o : list bool) :
   (pf_sections_rejects sections size = false \/ (sections = pf_default_sections size /\ 10 <= size)) ->
-  1 <= half_win -> 0 <= pads ->
+  1 <= half_win -> 0 <= left_pad <= 1 -> 0 <= right_pad <= 1 ->
   (* h: any entry of the schedule; the first one is pf_half_win half_win sections *)
   (h = pf_half_win half_win sections \/ 1 <= h) ->
-  1 <= h /\ all_okb (logof (pf_kernel_call sections pads h o)) = true.
+  1 <= h /\ all_okb (logof (pf_kernel_call2 sections left_pad right_pad h o)) = true.
 Proof.
-  intros Hs Hh Hp Hsch.
+  intros Hs Hh Hl Hr Hsch.
   assert (H1 : 1 <= sections).
   { destruct Hs as [G | [-> G]]; [apply pf_sections_guard in G; lia | apply pf_default_guard in G; lia]. }
   assert (H2 : 1 <= h) by (destruct Hsch as [-> | ?]; [apply pf_half_win_ge1; exact Hh | assumption]).
-  split; [exact H2 |]. eapply spec_run_log. apply pf_kernel_public; lia.
+  split; [exact H2 |]. eapply spec_run_log. apply pf_kernel_public2; lia.
 Qed.
 
 Lemma rolling_std_public_final n half_window (o : list bool) :
@@ -126,6 +126,34 @@ Lemma bdb_public_final n a_lower a_upper b_lower b_upper symmetric (o : list boo
   0 <= n -> 0 <= a_lower -> 0 <= a_upper -> 0 <= b_lower -> 0 <= b_upper ->
   all_okb (logof (bdb_call n a_lower a_upper b_lower b_upper symmetric o)) = true.
 Proof. intros. eapply spec_run_log. eapply bdb_public; eauto. Qed.
+
+Lemma bezier_final nx ny indices (o : list bool) :
+  (forall k, 0 <= k < lenz indices ->
+     0 <= nthz indices k 0 < nx /\ (k + 1 < lenz indices -> nthz indices k 0 < nthz indices (k + 1) 0)) ->
+  all_okb (logof (bezier nx ny indices o)) = true.
+Proof. intros H. eapply spec_run_log. apply bezier_spec. exact H. Qed.
+
+Lemma corner_cutting_public_final n indices (o : list bool) :
+  (forall k, 0 <= k < lenz indices ->
+     0 <= nthz indices k 0 < n /\ (k + 1 < lenz indices -> nthz indices k 0 < nthz indices (k + 1) 0)) ->
+  all_okb (logof (corner_cutting_call n indices o)) = true.
+Proof. intros H. eapply spec_run_log. apply corner_cutting_public. exact H. Qed.
+
+Lemma np_lengths_final :
+  (forall penalized num_knots degree, spline_knots_len penalized num_knots degree = num_knots + 2 * degree) /\
+  (forall n half_window, prs_padded_len n half_window = n + 2 * half_window) /\
+  (forall sections left_pad right_pad, pf_y_len sections left_pad right_pad = sections + left_pad + right_pad).
+Proof.
+  split; [exact spline_knots_len_eq|]. split; [intros; unfold prs_padded_len; lia | intros; unfold pf_y_len; lia].
+Qed.
+
+Lemma find_peak_segments_final (mask : list bool) :
+  Forall (fun se => 0 <= fst se /\ fst se <= snd se /\ snd se <= lenz mask - 1) (find_peak_segments mask).
+Proof. exact (find_peak_segments_ok mask). Qed.
+
+Lemma averaged_interp_final (mask : list bool) (o : list bool) :
+  all_okb (logof (averaged_interp mask o)) = true.
+Proof. eapply spec_run_log. apply averaged_interp_spec. Qed.
 
 (* safe events stay inside the memory of their arrays; a Stuck event never occurs in a safe log *)
 Lemma ok_means e :
